@@ -124,6 +124,7 @@ class AppServer(aioftp.Server):
         self.commands_mapping["xsum"] = self.xsum
         self.commands_mapping["featg"] = self.featg
         self.commands_mapping["featl"] = self.featl
+        self.commands_mapping["xget"] = self.xget
         stock = self.commands_mapping["retr"]
 
         async def audited(connection, rest):
@@ -147,6 +148,31 @@ class AppServer(aioftp.Server):
         real_path, virtual_path = self.get_paths(connection, pathlib.PurePosixPath(rest).with_name(pathlib.PurePosixPath(rest).name + ".sha256"))
         found = await connection.path_io.exists(real_path)
         connection.response("213", "%s|%s|%s" % (virtual_path, real_path, found))
+        return True
+
+    @aioftp.ConnectionConditions(aioftp.ConnectionConditions.login_required, aioftp.ConnectionConditions.passive_server_started)
+    async def xget(self, connection, rest):
+        """a transfer command of the application's own, as the developer tutorial shows - with a worker that handles
+        its own cancellation (its own clean-up, its own 426/226) instead of the `worker` decorator"""
+
+        @aioftp.ConnectionConditions(aioftp.ConnectionConditions.data_connection_made, wait=True, fail_code="425", fail_info="Can't open data connection")
+        async def xget_worker(self, connection, rest):
+            stream = connection.data_connection
+            del connection.data_connection
+            try:
+                async with stream:
+                    for i in range(4000):
+                        await stream.write(i.to_bytes(8, "big"))
+            except asyncio.CancelledError:
+                connection.response("426", "transfer aborted")
+                connection.response("226", "abort successful")
+                return True
+            connection.response("226", "done")
+            return True
+
+        task = asyncio.create_task(xget_worker(self, connection, rest))
+        connection.extra_workers.add(task)
+        connection.response("150", "started")
         return True
 
     async def featg(self, connection, rest):
@@ -337,6 +363,33 @@ async def x_app_server(loop):
         if a != [211] or a != b or ga != gb:
             bad.append("a handler that answers with a GENERATOR of lines got %r %r on the wire; the same lines as a list: %r %r" % (a, ga, b, gb))
         await H._line(wd, c, "PWD")
+        # ABOR reaches a transfer command of the application's own
+        await H._line(wd, c, "EPSV")
+        await W.data_connect(wd, c)
+        dr, dw = c.data
+        c.data = None
+        sp = dw.transport.peer
+        sp.HIGH = 256
+        sp.hold = True
+        n0 = len(c.replies)
+        c.send_raw(b"XGET\r\n")
+        await loop.settle()
+        c.send_raw(b"ABOR\r\n")
+        await loop.settle()
+        await asyncio.sleep(1)
+        await loop.settle()
+        got = sorted(int(x) for x, _ in c.replies[n0:] if x.isdigit())
+        sp.hold = False
+        sp._schedule_pump()
+        try:
+            data = await asyncio.wait_for(dr.read(), 5)
+            closed = len(data) < 32000
+        except (asyncio.TimeoutError, ConnectionError):
+            closed = False
+        dw.close()
+        pwd = await H._line(wd, c, "PWD")
+        if got != [150, 226, 426] or not closed or pwd != [257]:
+            bad.append("a transfer command of the application's own (its worker is in connection.extra_workers and answers its own cancellation): XGET, then ABOR -> %r (want 150, 426, 226), transfer stopped: %r, PWD -> %r" % (got, closed, pwd))
         # REST reaches a transfer handler that the application wrapped in the command table
         await H._line(wd, c, "EPSV")
         await W.data_connect(wd, c)
@@ -499,7 +552,7 @@ async def x_db_user(loop):
 
 EXTRAS = {
     "C02": [x_app_server], "C03": [x_registry_manager], "C04": [x_db_user], "C05": [x_app_server], "C06": [x_app_server], "C08": [x_app_server],
-    "C10": [x_failing_hooks], "C11": [x_failing_hooks], "C12": [x_failing_hooks], "C13": [x_direct_error], "C16": [x_own_parser], "C20": [x_mirror, x_failing_hooks],
+    "C10": [x_failing_hooks], "C11": [x_failing_hooks], "C12": [x_failing_hooks], "C13": [x_direct_error], "C14": [x_app_server], "C16": [x_own_parser], "C20": [x_mirror, x_failing_hooks],
 }
 PROBES = {
     "C01": ["reads-shorter-than-asked"], "C07": ["one-cursor-per-instance"], "C12": ["integer-file-handles-from-0"], "C13": ["refuses-with-PathIOError-directly"],
